@@ -80,7 +80,7 @@ VALIDATOR_EXC = ["ValueError", "KeyError", "RuntimeError", "PyroError", "Securit
 
 first_kinds = st.sampled_from(["connect"] * 6 + ["invoke", "invoke", "ping", "result", "connectok", "connectfail", "type0", "type7", "type255"])
 shapes = st.sampled_from(["ok", "ok", "ok", "ok", "no-handshake", "no-object", "empty-dict", "list", "str", "none", "nested", "int", "extra-keys"])
-objects = st.sampled_from(["t", "t", "t", "sess", "Pyro.Daemon", "nope", "", "T", "t ", 5, None, ["t"]])
+objects = st.sampled_from(["t", "t", "t", "sess", "Pyro.Daemon", "nope", "gone", "gone", "", "T", "t ", 5, None, ["t"]])
 mals = st.sampled_from([None] * 8 + ["magic", "version", "tag", "dlen+", "dlen-", "alen+", "oversize", "undecodable", "truncate-header", "truncate-body",
                                      "compressed-flag", "garbage"])
 sers = st.sampled_from(["marshal", "marshal", "json", "serpent", "msgpack"])
@@ -206,6 +206,17 @@ def _setup(variant):
     S = live.Served(servertype, daemon_kwargs={"interface": LDO})
     S.daemon.register(Target(), "t")
     S.daemon.register(Sess, "sess")
+    # "gone": an id that WAS registered and connected to, and has been unregistered since: it is an unknown object now
+    gone = Target()
+    S.daemon.register(gone, "gone")
+    pg = live.RawPeer(S.address())
+    mg = pg.handshake("gone")
+    assert isinstance(mg, dict) and mg["type"] == wire.CONNECTOK
+    pg.call("gone", "hit", (0,), seq=2)
+    pg.close()
+    S.daemon.unregister("gone")
+    live.wait_for(lambda: S.busy_workers() == 0, 20)
+    del EXEC[:]
     _live.update(variant=variant, served=S, scopes=[s for s in (scope, scope2) if s])
     if variant == "thread-poolfull":
         w = live.RawPeer(S.address())
